@@ -23,6 +23,7 @@ type LoopSpec struct {
 	Modifies   []Expr
 	ModAll     bool
 	Bound      int
+	KeepsOld   bool // loop N keeps-old: memory older than the function entry changes only at iteration-independent addresses
 	Ghosts     []GhostLoopVar
 }
 
@@ -582,6 +583,8 @@ func ParseSpecFile(path string, pkgPath string) (*SpecFile, error) {
 				}
 				ls.Modifies = append(ls.Modifies, locs...)
 				ls.ModAll = ls.ModAll || all
+			case "keeps-old":
+				ls.KeepsOld = true
 			case "bound":
 				b, err := strconv.Atoi(strings.TrimSpace(r3))
 				if err != nil {
